@@ -117,11 +117,11 @@ Proof. exact loader_add_build_ok. Qed.
 Print Assumptions C11_paths_scope.
 
 (* 9. file boundaries *)
-Theorem C11_parse_file_unfold : forall fixed depth fs l filename text inherited, parse_file fixed (S depth) fs l filename text inherited = (do s0 <- sc_new (text ++ [0%N]); stmts_loop fixed (parse_file fixed depth fs) fs (text ++ [0%N]) filename (S (length (text ++ [0%N]))) l s0 inherited).
+Theorem C11_parse_file_unfold : forall fixed depth fs l filename text inherited, parse_file fixed (S depth) fs l filename text inherited = (do s0 <- sc_new (text ++ [0%N]); stmts_loop fixed (parse_file_r fixed depth fs) fs [] (text ++ [0%N]) filename (S (length (text ++ [0%N]))) l s0 inherited).
 Proof. exact parse_file_unfold. Qed.
 Print Assumptions C11_parse_file_unfold.
 
-Theorem C11_child_scope_step : forall fixed rec fs buf filename n l s vs st p vs1 s1 l1 id content, st = SInclude p \/ st = SSubninja p -> parser_read fixed (parse_fuel buf) s vs = SOk (Some st, vs1) s1 -> evaluate_path l p [vars_env vs1] = Ok (l1, id) -> assoc_b (file_nm l1 id) fs = Some content -> stmts_loop fixed rec fs buf filename (S n) l s vs = (do l2 <- rec l1 (file_nm l1 id) content vs1; stmts_loop fixed rec fs buf filename n l2 s1 vs1).
+Theorem C11_child_scope_step : forall fixed rec fs reading buf filename n l s vs st p vs1 s1 l1 id content, st = SInclude p \/ st = SSubninja p -> parser_read fixed (parse_fuel buf) s vs = SOk (Some st, vs1) s1 -> evaluate_path l p [vars_env vs1] = Ok (l1, id) -> existsb (bytes_eqb (file_nm l1 id)) reading = false -> assoc_b (file_nm l1 id) fs = Some content -> stmts_loop fixed rec fs reading buf filename (S n) l s vs = (do l2 <- rec (reading ++ [file_nm l1 id]) l1 (file_nm l1 id) content vs1; stmts_loop fixed rec fs reading buf filename n l2 s1 vs1).
 Proof. exact stmts_loop_child_scope. Qed.
 Print Assumptions C11_child_scope_step.
 
